@@ -210,3 +210,11 @@ func runScript(conn *Conn, st *execState, d *runData, in Inp) (string, any) {
 	st.crash = &crash{"unknown script"}
 	return "cancelled_early", Empty{}
 }
+
+// NewStandalonePlugin builds a scripted connection and its plugin schema outside a world
+// (used by the conformance replay against the real ATP client/server).
+func NewStandalonePlugin(key string, sc *StepScript) (*Conn, *schema.CallableSchema) {
+	conn := &Conn{ID_: 1, Key: key, Script: sc, closedCh: make(chan struct{}), Phase: "run"}
+	st := &execState{conn: conn}
+	return conn, newPlugin(conn, st)
+}
